@@ -222,6 +222,11 @@ func genComposed(t *rapid.T, forceDecoding bool) ProfileSpec {
 	if rapid.IntRange(0, 2).Draw(t, "defscheme") == 0 {
 		p.Opts = append(p.Opts, Opt16{Name: "default-scheme", Str: gen.Pick(t, "scheme", []string{"http", "https", "foo", "ftp"})})
 	}
+	// an option given twice, identically, is still that option (C18 uses this generator too: a
+	// decoding profile whose decoding is written twice still decodes)
+	if len(p.Opts) > 0 && rapid.IntRange(0, 3).Draw(t, "dup") == 0 {
+		p.Opts = append(p.Opts, p.Opts[rapid.IntRange(0, len(p.Opts)-1).Draw(t, "dupwhich")])
+	}
 	return p
 }
 
@@ -264,6 +269,8 @@ var c17Hostile = []string{"data:x ?", "a:b ?#", "a:b  ?&&", "a:b ?&#f", "foo:o  
 	// an escaped (or doubled) delimiter at the start or inside each component: decoding must not let it be read structurally the second time
 	"http://h/p#%23a", "http://h/p###a", "http://h/p#%2523#", "http://h/p#%23%23", "http://h/p?%3Fa", "http://h/p??a", "http://h/p?%253F", "http://h/%2Fa", "http://h/%252F%252Fa", "http://h//a", "http://h/p%3Fq", "http://h/p%23f", "http://h/p?q%23x",
 	"http://u%40:p%3A@h/", "http://u%2540@h/", "foo://h/p#%23a", "foo:o#%23%23", "foo:o?%3F%23", "http://h/%5Cx", "http://h/a%2F..%2Fb", "http://h/?a=%23&b=%26%3D",
+	// two or more delimiters in front (a setter that strips one per call eats one per pass), and an escaped tab / newline inside a would-be escape
+	"http://h/p???a=1", "http://h/p?%3F%3Fa", "http://h/p?%3F%253Fa", "foo://h/p???", "http://h/p#%23%23%23", "http://h/p#%2%0952", "http://h/%2%0A52", "http://h/?a=%2%0D52", "http://h/p#%25%0932%0935", "http://h/p#%%0925",
 	// nested escapes of bytes that are not valid UTF-8 (one more decoding level exposes them to whatever reads the text as UTF-8)
 	"http://h/?a=%2580", "http://h/?%25FF=1&%25FE=2", "http://h/p%2580?q#%2580", "foo://h/?a=%25C3", "http://h/?a=%25C3%25A9", "http://h/?%2525E2%252582=x", "http://h/?b=%2580&a=%25FF",
 	"file:///C|/../x", "file://localhost/C:/x#", "ws://h:80/?%20", "http://h:0080/", "HTTP://H/?B=1&A=2&a=3", "x:y?%zz&%", "foo://h/?a b&c\td", "example.com:80/p?b&a", "u:p@h/?q", "//h/?b&a"}
